@@ -283,6 +283,43 @@ class Rewriter:
         self._rec('ptr-rel', n, minc)
         return text
 
+    def scoped_locks(self, text, decl_pat, minc=1, maxc=None, lock='LOCK_MUTEX', unlock='UNLOCK_MUTEX'):
+        """RAII lock objects `T::scoped_lock name(mutex);` matched by decl_pat (group 1 = the mutex expression)
+        -> `lock(mutex);` at the declaration and `unlock(mutex);` where the object goes out of scope: before the closing brace
+        of the enclosing block and in front of every `return` that lies textually inside the scope."""
+        n = 0
+        while True:
+            m = re.search(decl_pat, text)
+            if not m:
+                break
+            n += 1
+            mu = m.group(1).strip()
+            mk = mask(text)
+            # enclosing block: scan backwards for the unmatched '{'
+            d, i = 0, m.start() - 1
+            while i >= 0:
+                if mk[i] == '}':
+                    d += 1
+                elif mk[i] == '{':
+                    if d == 0:
+                        break
+                    d -= 1
+                i -= 1
+            if i < 0:
+                raise ExtractionBreak('%s: scoped lock outside a block' % self.name)
+            close = match_close(mk, i)
+            body = text[m.end():close]
+            bmask = mk[m.end():close]
+            out, pos = [], 0
+            for r in re.finditer(r'\breturn\b[^;]*;', bmask):
+                out.append(body[pos:r.start()])
+                out.append('{ %s(%s); %s }' % (unlock, mu, body[r.start():r.end()]))
+                pos = r.end()
+            out.append(body[pos:])
+            text = text[:m.start()] + '%s(%s);' % (lock, mu) + ''.join(out) + '%s(%s); ' % (unlock, mu) + text[close:]
+        self._rec('scoped_lock -> %s/%s at scope exit' % (lock, unlock), n, minc, maxc)
+        return text
+
     # ---- rule library -------------------------------------------------
     def casts(self, text, minc=0):
         """static_cast<T>(e) / reinterpret_cast<T>(e) / const_cast<T>(e) -> ((T)(e))"""
